@@ -1531,7 +1531,9 @@ impl InferContext {
                     }
                     _ => Type::Failure.into_id_with_location(loc.clone()),
                 };
-                let _ = self.unify_types(ty, pat_ty);
+                if let Err(e) = self.unify_types(ty, pat_ty) {
+                    self.errors.extend(e);
+                }
             }
             MatchPattern::Wildcard => {
                 // Wildcard matches anything, no binding
@@ -2495,7 +2497,9 @@ impl InferContext {
 
                     let bodyt = this.infer_type_levelup(body_expr);
 
-                    let _res = this.unify_types(idt, bodyt);
+                    if let Err(e) = this.unify_types(idt, bodyt) {
+                        this.errors.extend(e);
+                    }
 
                     // Check if public function leaks private type in its declared signature
                     this.check_private_type_leak(id.id, id.ty, loc.clone());
@@ -2745,7 +2749,9 @@ impl InferContext {
                                     }
                                     _ => Type::Failure.into_id_with_location(loc.clone()),
                                 };
-                                let _ = self.unify_types(scrut_ty, pat_ty);
+                                if let Err(e) = self.unify_types(scrut_ty, pat_ty) {
+                                    self.errors.extend(e);
+                                }
                                 self.infer_type_unwrapping(arm.body)
                             }
                             crate::ast::MatchPattern::Wildcard => {
@@ -2812,7 +2818,9 @@ impl InferContext {
                 } else {
                     let first = arm_tys[0];
                     for ty in arm_tys.iter().skip(1) {
-                        let _ = self.unify_types(first, *ty);
+                        if let Err(e) = self.unify_types(first, *ty) {
+                            self.errors.extend(e);
+                        }
                     }
                     Ok(first)
                 }
